@@ -1,6 +1,6 @@
 (* C15 — obligations on the generated tables (Gen/ConfigSchemas.v), discharged by computation at every run. *)
 From Coq Require Import String List ZArith Bool.
-From V Require Import Model.C15_Config Model.C15_Valid Gen.ConfigSchemas Proofs.C15_Config.
+From V Require Import Model.C15_Config Model.C15_Valid Gen.ConfigSchemas Gen.ConfigValidators Proofs.C15_Config Proofs.C15_Validators.
 Import ListNotations.
 Open Scope string_scope.
 
@@ -17,10 +17,49 @@ Proof. vm_compute. reflexivity. Qed.
 Lemma coherent_in S : In S all_schemas -> schema_coherentb S = true.
 Proof. intros H. pose proof all_coherent_l as A. rewrite forallb_forall in A. auto. Qed.
 
-Definition pin_ok (S : schema) : bool :=
-  match assoc_get (sname S) expected_valid_hash with Some h => String.eqb h (svalid_hash S) | None => false end.
-Lemma validators_pinned_l : forallb pin_ok all_schemas = true.
+(* ---- the translated Validate() of every section is the model's validator ---- *)
+Definition sec_matches (s : string) : bool :=
+  match assoc_get s gen_clause_table, assoc_get s model_clauses with
+  | Some g, Some m => clauses_match (map snd g) m
+  | _, _ => false end.
+
+Lemma validators_match_l : forallb (fun S => sec_matches (sname S)) all_schemas = true.
 Proof. vm_compute. reflexivity. Qed.
+
+Definition gen_by (cl : list (string * vcond)) : validator := fun orc c => rejects_none orc c (map snd cl).
+
+Lemma gen_validators_shape : gen_validators = map (fun p => (fst p, gen_by (snd p))) gen_clause_table.
+Proof. reflexivity. Qed.
+
+Lemma assoc_get_map {A B} (f : A -> B) s (l : list (string * A)) :
+  assoc_get s (map (fun p => (fst p, f (snd p))) l) = option_map f (assoc_get s l).
+Proof.
+  induction l as [|[k v] r IH]; [reflexivity|]. cbn [map assoc_get fst snd].
+  destruct (String.eqb s k); [reflexivity|exact IH].
+Qed.
+
+Lemma validators_source_is_model_l S : In S all_schemas ->
+  exists G M, assoc_get (sname S) gen_validators = Some G /\ assoc_get (sname S) validators = Some M
+              /\ forall orc c, G orc c = M orc c.
+Proof.
+  intros I. pose proof validators_match_l as A. rewrite forallb_forall in A. specialize (A S I). cbv beta in A.
+  unfold sec_matches in A.
+  destruct (assoc_get (sname S) gen_clause_table) as [g|] eqn:EG; [|discriminate A].
+  destruct (assoc_get (sname S) model_clauses) as [m|] eqn:EM; [|discriminate A].
+  exists (gen_by g), (valid_by m). split; [|split].
+  - rewrite gen_validators_shape, assoc_get_map, EG. reflexivity.
+  - unfold validators. rewrite assoc_get_map, EM. reflexivity.
+  - intros orc c. unfold gen_by, valid_by. now apply clauses_match_sound.
+Qed.
+
+Definition gen_validator_of (s : string) : validator :=
+  match assoc_get s gen_validators with Some v => v | None => reject_all end.
+
+Lemma gen_validator_of_model S orc c : In S all_schemas -> gen_validator_of (sname S) orc c = validator_of (sname S) orc c.
+Proof.
+  intros I. destruct (validators_source_is_model_l S I) as [G [M [EG [EM E]]]].
+  unfold gen_validator_of, validator_of. rewrite EG, EM. apply E.
+Qed.
 
 Definition custom_pin_ok (S : schema) : bool :=
   forallb (fun '(id, h) => match assoc_get id expected_custom_hash with Some e => String.eqb e h | None => false end) (scustom_hashes S).
